@@ -262,6 +262,7 @@ def gen_session(rng, size, n_ops, tb=False, small=False):
     if tb:
         ops.append("TBSUM")
         ops.append("TBOFF")
+        ops.append("CLEAR")      # the former tablebase bytes are unmodelled garbage entries until cleared
         ops.append("INS %s 1 2 0 5 1 0 3 0 0" % hx(rng.choice(keys)))
         ops.append("PROBE %s 0 0" % hx(rng.choice(keys)))
     return ops
@@ -294,7 +295,7 @@ def run_both(cpp_exe, ml_exe, lines, timeout=900):
 
 def first_diff(a, b):
     for i, (x, y) in enumerate(zip(a, b)):
-        if x != y:
+        if x != y and not (x.startswith("T ") and y.startswith("T ")):
             return i
     if len(a) != len(b):
         return min(len(a), len(b))
@@ -344,8 +345,8 @@ def spec_check_session(ops, out):
                 return dict(kind="usedSize > tableSize", op_index=i, op=op, observed=line)
         if t[0] == "RESIZE":
             inserted = None       # may or may not have cleared: stop tracking records
-        if t[0] == "CONTEMPT" and inserted is not None:
-            inserted = {}               # internal keys change: stop relating hits to earlier inserts
+        if t[0] == "CONTEMPT" and inserted:
+            inserted = None             # internal keys change: stop relating hits to earlier inserts
         if r and r[0] in ("B", "R", "I") and used is not None and used >= 512:
             idxs = []
             if r[0] == "I":
@@ -358,7 +359,7 @@ def spec_check_session(ops, out):
                 if idx % 4 != 0 or idx + 3 >= used:
                     return dict(kind="bucket outside the used part of the table", op_index=i, op=op, usedSize=used,
                                 index=idx, observed=line)
-        if r and r[0] == "OOR" and used is not None and used >= 512:
+        if r and r[0] == "OOR" and t[0] in ("INS", "PROBE", "BUSY") and used is not None and used >= 512:
             return dict(kind="bucket outside the table", op_index=i, op=op, usedSize=used, observed=line)
         if inserted is None:
             continue
@@ -377,6 +378,14 @@ def spec_check_session(ops, out):
             if not hit:
                 continue
             recs = inserted.get(key, [])
+            if t[0] == "BUSY":
+                # setBusy re-inserts the probed record (score read at ply p, stored again at ply p)
+                # under the entry's own key; later hits may return that derived record
+                p = unhx(t[2])
+                st = s16(field(rd, "score"))
+                sc = st - p if st > MATE0 // 2 else st + p if st < -(MATE0 // 2) else st
+                inserted.setdefault(rk, []).append(dict(move=field(rd, "move"), score=sc, type=field(rd, "type"), ply=p,
+                                                        depth=field(rd, "depth"), eval=s16(field(rd, "eval")), empty_move=False))
             if not recs:
                 if key == 0 or rd == 0:
                     continue           # the all-zero slot decodes to key 0
